@@ -40,6 +40,8 @@ EntryOf(j, h) ==
      errors |-> IF ~RendersErrors THEN {}
                 ELSE SetOf(IF ErrRef(j) = 0 THEN <<>> ELSE h[ErrRef(j)]) \cup (IF ReadsDocstrings THEN SetOf(DocRaises[m.fn]) ELSE {}),
      tags |-> m.tags,
+     \* the request schema (if one is produced) names the method it belongs to
+     reqname |-> IF scn.kind # "openrpc" /\ scn.extractor \in {"pyd", "doc+pyd"} THEN "own" ELSE "na",
      \* (documented parameters are the subject of C17 / Binding.tla)
      cpref |-> IF scn.extractor = "pyd" /\ scn.kind # "openrpc" THEN m.cpref ELSE "na"]       \* prefix of the method's component schemas
 DocOf(h) == {EntryOf(j, h) : j \in {i \in DOMAIN scn.methods : Documented(i)}}
